@@ -254,20 +254,66 @@ class Producers:
         return None
 
     def block_value(self, stmts, f, env, stack, depth):
-        """class of a block used as a value: its tail expression plus every explicit `return`"""
+        """class of a block used as a value: its tail expression plus every explicit `return` (evaluated under the bindings of the
+        if-let / match arm that encloses it)"""
         out = set()
         if stmts:
             last = stmts[-1]
             if last.get("k") == "expr" and not last.get("semi"):
                 out |= self.expr(last["e"], f, env, stack, depth + 1)
-        for st in stmts or []:
-            for e in stmt_exprs(st):
-                for x in walk(e):
-                    if x.get("k") == "return" and x.get("expr") is not None:
-                        out |= self.expr(x["expr"], f, env, stack, depth + 1)
-                    if x.get("k") == "closure":
-                        break
+        out |= self.returns_of(stmts, f, env, stack, depth, skip_tail=True)
         return frozenset(out)
+
+    def returns_of(self, stmts, f, env, stack, depth, skip_tail=False):
+        out = set()
+        if depth > 40:
+            return out
+        n = len(stmts or [])
+        for i, st in enumerate(stmts or []):
+            tail = skip_tail and i == n - 1 and st.get("k") == "expr" and not st.get("semi")
+            for e in stmt_exprs(st):
+                out |= self._returns_expr(e, f, env, stack, depth + 1, value_position=tail)
+        return out
+
+    def _returns_expr(self, e, f, env, stack, depth, value_position=False):
+        """classes of the `return` expressions below e; value_position: e's own value was already accounted for by the caller"""
+        out = set()
+        if not isinstance(e, dict) or depth > 40:
+            return out
+        k = e.get("k")
+        if k == "closure":
+            return out
+        if k == "return":
+            if e.get("expr") is not None:
+                out |= self.expr(e["expr"], f, env, stack, depth + 1)
+            return out
+        if k == "if":
+            env2 = env
+            c = e["cond"]
+            if c.get("k") == "letcond":
+                hc = self.expr(c["expr"], f, env, stack, depth + 1)
+                env2 = dict(env)
+                for b in pat_bindings(c["pat"]):
+                    env2[b] = hc
+            out |= self.returns_of(e["then"], f, env2, stack, depth + 1, skip_tail=value_position)
+            if e.get("else") is not None:
+                out |= self._returns_expr(e["else"], f, env, stack, depth + 1, value_position)
+            return out
+        if k == "match":
+            hs = self.expr(e["expr"], f, env, stack, depth + 1)
+            for arm in e["arms"]:
+                env2 = dict(env)
+                for b in pat_bindings(arm["pat"]):
+                    env2[b] = hs
+                out |= self._returns_expr(arm["body"], f, env2, stack, depth + 1, value_position)
+            return out
+        if k == "block":
+            out |= self.returns_of(e["stmts"], f, env, stack, depth + 1, skip_tail=value_position)
+            return out
+        from srclib import children
+        for c in children(e):
+            out |= self._returns_expr(c, f, env, stack, depth + 1)
+        return out
 
     def call_fn(self, nf, args, stack):
         params = [p["pat"]["name"] for p in nf.sig.get("params", []) if p.get("pat") and p["pat"].get("name")]
